@@ -28,7 +28,7 @@ from harness import tlc
 from drivers import httpwire_msg as M
 from drivers.httpwire_exec import Run, mon_trace, strict_trace, units_of
 
-CLAUSES = {1: 'Payload', 2: 'TruncIsError', 3: 'CompleteIsOk', 4: 'NoOverRead', 5: 'Persist', 6: 'NoHang',
+CLAUSES = {1: 'Payload', 2: 'TruncIsError', 3: 'CompleteIsOk', 4: 'NoOverRead', 5: 'Persist', 6: 'NoHang', 7: 'WholeMessage',
            11: 'RespBytes', 12: 'ReqBytes', 13: 'RecCount', 14: 'RecAtMostOne', 15: 'RecBlocks', 16: 'RecLinked',
            17: 'NoStray', 18: 'EventPairs', 19: 'WarcParses', 20: 'RevisitBlocks'}
 C08_INVS = ['D_Payload', 'D_TruncIsError', 'D_CompleteIsOk', 'D_NoOverRead', 'D_Persist', 'NoHang']
@@ -358,7 +358,7 @@ def run(chk):
             cm = M.build_cmsg(ch, r_)
             exs = [{'cm': cm, 'pieces': M.random_pieces(r_, len(M.sent(cm)))}]
             if NX == 2:
-                cm2 = M.build_cmsg(dict(ch, te='none', cl='exact', interim=0, split_te=None, vspace=None, fmt='crlf', sclose=False), r_)
+                cm2 = M.build_cmsg(dict(ch, te='none', cl='exact', interim=0, split_te=None, vspace=None, trailer_fix=None, fmt='crlf', sclose=False), r_)
                 exs.append({'cm': cm2, 'pieces': M.random_pieces(r_, len(M.sent(cm2)))})
             r = Run(exs, warc=warc)
             r.execute()
